@@ -41,6 +41,7 @@ func checkC01(w *World, r *Report) {
 	c01FreshDecode(w, r, a, "C01.k", "k-fresh-decode-target")
 	c01WriteKinds(w, r, a, "C01.l", "l-plain-write-operations")
 	c12Comparer(w, r, "C01.m", "m-bytewise-comparer")
+	c14Dir(w, r, "C01.n", "n-fresh-directory-per-shard")
 }
 
 // c01WriteKinds: the apply path mutates the batch only with operations whose effect does not
@@ -879,7 +880,26 @@ func freshCopyFromEncoder(fn *ssa.Function, ms *ssa.MakeSlice, isEncodeInto func
 		}
 		if u, ok := c.Args[1].(*ssa.UnOp); ok {
 			if g, ok := u.X.(*ssa.Global); ok && g.Name() == "maxUserKey" {
-				res = "" // the wildcard bound before increment (checked by the increment rule)
+				// the wildcard bound before increment: exactly as long as the maximum key, and
+				// handed to the increment before it is used (the guard of the increment is checked
+				// by the increment rule)
+				res = "a copy of the maximum user key used as a bound without the rightmost-byte increment: keys that extend the maximum key (1020-1024 bytes of 0xFF) lie beyond it"
+				eachInstr(fn, func(x ssa.Instruction) {
+					ic := plainCall(x)
+					if ic == nil || StaticCallee(ic) == nil || StaticCallee(ic).Name() != "incrementRightmostByte" {
+						return
+					}
+					a := ic.Args[0]
+					if a == ssa.Value(ms) {
+						res = ""
+					}
+					if lu, ok := a.(*ssa.UnOp); ok && places[Expr(lu.X)] {
+						res = ""
+					}
+				})
+				if e := Expr(ms.Len); res == "" && (strings.Contains(e, "+") || !strings.Contains(e, "len(")) {
+					res = "a copy of the maximum user key of length `" + e + "`, not of the key's own length"
+				}
 			}
 		}
 	})
